@@ -22,7 +22,7 @@ META = dict(
                "its pass bound with a transform that previews and applies cleanly, or raise MalformedTransform, and a "
                "transform that was not applied must leave disk and versioning untouched. Conflict families and the "
                "applied tree are compared with the model (drift).",
-    level_note="Tree {a, d/, d/c}, one new trans-id, names {x, a}; <= 3 calls (quick: seeded sample of 1000 transforms x 2 "
+    level_note="Tree {a (executable), d/, d/c}, one new trans-id, names {x, a}; <= 3 calls (quick: seeded sample of 1000 transforms x 2 "
                "flavours; thorough: all). The calls of one transform are issued in one canonical order (contents, then paths, "
                "then versioning) and, in thorough, also in the opposite order. The resolvers' choices are not specified. "
                "Trusted: TLC, the state-dump / JSON bridge.",
@@ -30,12 +30,12 @@ META = dict(
 
 WORLD = "CONSTANTS\n  Tids <- PTids\n  Tree <- PTree\n  NameRank <- PRank\n"
 INVS = ("CleanIsWellFormed", "CleanBzrVersionedParents", "HistReplays")
-TREE = {"a": {"path": ["a"], "kind": "file"}, "d": {"path": ["d"], "kind": "directory"}, "c": {"path": ["d", "c"], "kind": "file"}}
+TREE = {"a": {"path": ["a"], "kind": "file", "x": True}, "d": {"path": ["d"], "kind": "directory"}, "c": {"path": ["d", "c"], "kind": "file"}}
 FAMILIES = ("unversioned parent", "parent loop", "duplicate", "missing parent", "non-directory parent",
             "versioning no contents", "unversioned executability", "non-file executability", "overwrite")
 
 
-def cfg(maxops, order="A", invariants=INVS, names=("x", "a"), execs=("yes",)):
+def cfg(maxops, order="A", invariants=INVS, names=("x", "a"), execs=("yes", "no")):
     return ("SPECIFICATION Spec\n" + WORLD + "  MaxOps = %d\n  AdjNames = {%s}\n  ExecVals = {%s}\n  Order = \"%s\"\n" % (
         maxops, ", ".join('"%s"' % n for n in names), ", ".join('"%s"' % e for e in execs), order)
         + "".join("INVARIANT %s\n" % i for i in invariants))
@@ -249,8 +249,10 @@ def diff_class(r):
         return "kind"
     if any((pv[p]["c"], pv[p]["t"]) != (ap[p]["c"], ap[p]["t"]) for p in both):
         return "content"
-    if any(pv[p]["x"] != ap[p]["x"] for p in both):
-        return "executable-bit"
+    xd = [p for p in both if pv[p]["x"] != ap[p]["x"]]
+    if xd:          # a file of the old tree that kept its path, or one that moved / is new
+        kept = any(ap[p]["c"] == "old" and TREE.get(ap[p]["t"], {}).get("path") == p.split("/") for p in xd)
+        return "executable-bit-of-unmoved-file" if kept else "executable-bit-of-moved-or-new-file"
     return "versioned-paths"
 
 
